@@ -294,6 +294,8 @@ def b_list(ip, args, kwargs, node):
 
 
 def b_tuple(ip, args, kwargs, node):
+    if args and getattr(args[0], "kind", "") == "mapped":
+        return args[0]
     return VTuple(ip.iterate(args[0]) if args else [])
 
 
@@ -521,6 +523,11 @@ def bytes_decode(ip, args, kwargs, node):
 
 def str_startswith(ip, args, kwargs, node):
     s, p = args[0], args[1]
+    if getattr(p, "kind", "") == "mapped":
+        # s.startswith(tuple(f(x) for x in S)): some element of S whose image is a prefix of s
+        x = z3.Const(ip.st.fresh_name("x"), sort_of_type(p.base.elem))
+        img = p.image_of(ip, wrap(p.base.elem, x))
+        return VBool(z3.Exists([x], z3.And(z3.Select(ip.st.heap[(p.base.ref, "set")], x), z3.PrefixOf(img.term, s.term))))
     if isinstance(p, VTuple):
         return VBool(_b(_or([z3.PrefixOf(x.term, s.term) for x in p.items])))
     return VBool(z3.PrefixOf(p.term, s.term))
